@@ -372,6 +372,7 @@ sexp sexp_immutable_string_op (sexp ctx, sexp self, sexp_sint_t n, sexp s) {
   res = sexp_c_string(ctx, sexp_string_data(s), sexp_string_size(s));
 #else
   res = sexp_alloc_type(ctx, string, SEXP_STRING);
+  if (sexp_exceptionp(res)) return res;
   sexp_string_bytes(res) = sexp_string_bytes(s);
   sexp_string_offset(res) = sexp_string_offset(s);
   sexp_string_size(res) = sexp_string_size(s);
@@ -395,6 +396,7 @@ sexp sexp_object_to_integer (sexp ctx, sexp self, sexp_sint_t n, sexp x) {
 
 sexp sexp_make_lambda_op (sexp ctx, sexp self, sexp_sint_t n, sexp name, sexp params, sexp body, sexp locals) {
   sexp res = sexp_alloc_type(ctx, lambda, SEXP_LAMBDA);
+  if (sexp_exceptionp(res)) return res;
   sexp_lambda_name(res) = name;
   sexp_lambda_params(res) = params;
   sexp_lambda_body(res) = body;
@@ -409,6 +411,7 @@ sexp sexp_make_lambda_op (sexp ctx, sexp self, sexp_sint_t n, sexp name, sexp pa
 
 sexp sexp_copy_lambda (sexp ctx, sexp self, sexp_sint_t n, sexp lambda) {
   sexp res = sexp_alloc_type(ctx, lambda, SEXP_LAMBDA);
+  if (sexp_exceptionp(res)) return res;
   sexp_lambda_name(res) = sexp_lambda_name(lambda);
   sexp_lambda_params(res) = sexp_lambda_params(lambda);
   sexp_lambda_body(res) = sexp_lambda_body(lambda);
@@ -423,6 +426,7 @@ sexp sexp_copy_lambda (sexp ctx, sexp self, sexp_sint_t n, sexp lambda) {
 
 sexp sexp_make_set_op (sexp ctx, sexp self, sexp_sint_t n, sexp var, sexp value) {
   sexp res = sexp_alloc_type(ctx, set, SEXP_SET);
+  if (sexp_exceptionp(res)) return res;
   sexp_set_var(res) = var;
   sexp_set_value(res) = value;
   return res;
@@ -430,6 +434,7 @@ sexp sexp_make_set_op (sexp ctx, sexp self, sexp_sint_t n, sexp var, sexp value)
 
 sexp sexp_make_ref_op (sexp ctx, sexp self, sexp_sint_t n, sexp name, sexp cell) {
   sexp res = sexp_alloc_type(ctx, ref, SEXP_REF);
+  if (sexp_exceptionp(res)) return res;
   sexp_ref_name(res) = name;
   sexp_ref_cell(res) = cell;
   return res;
@@ -437,6 +442,7 @@ sexp sexp_make_ref_op (sexp ctx, sexp self, sexp_sint_t n, sexp name, sexp cell)
 
 sexp sexp_make_cnd_op (sexp ctx, sexp self, sexp_sint_t n, sexp test, sexp pass, sexp fail) {
   sexp res = sexp_alloc_type(ctx, cnd, SEXP_CND);
+  if (sexp_exceptionp(res)) return res;
   sexp_cnd_test(res) = test;
   sexp_cnd_pass(res) = pass;
   sexp_cnd_fail(res) = fail;
@@ -445,18 +451,21 @@ sexp sexp_make_cnd_op (sexp ctx, sexp self, sexp_sint_t n, sexp test, sexp pass,
 
 sexp sexp_make_seq (sexp ctx, sexp self, sexp_sint_t n, sexp ls) {
   sexp res = sexp_alloc_type(ctx, seq, SEXP_SEQ);
+  if (sexp_exceptionp(res)) return res;
   sexp_seq_ls(res) = ls;
   return res;
 }
 
 sexp sexp_make_lit_op (sexp ctx, sexp self, sexp_sint_t n, sexp value) {
   sexp res = sexp_alloc_type(ctx, lit, SEXP_LIT);
+  if (sexp_exceptionp(res)) return res;
   sexp_lit_value(res) = value;
   return res;
 }
 
 sexp sexp_make_macro_op (sexp ctx, sexp self, sexp_sint_t n, sexp proc, sexp env) {
   sexp res = sexp_alloc_type(ctx, macro, SEXP_MACRO);
+  if (sexp_exceptionp(res)) return res;
   sexp_macro_proc(res) = proc;
   sexp_macro_env(res) = env;
   return res;
